@@ -1802,7 +1802,7 @@ def check_c17(tier, replay):
         if not rdv.violated:
             raise ToolError("Files.tla does not notice deviation %s" % dev)
     depth = 10 if tier == "quick" else 11
-    want = 16 if tier == "quick" else 90
+    want = 16 if tier == "quick" else 60
     cfg = vlib.render_cfg("MC_Files.cfg", dict(fconsts, MaxOps=str(depth), EmitBehaviours="TRUE"),
                           os.path.join(wd, "f_emit.cfg"))
     raw = _emit_cases("MC_Files", cfg, prop + "fe", simulate=(max(4000, want * 40), depth * 8), timeout_s=600)
@@ -1895,7 +1895,7 @@ def check_c17(tier, replay):
     wpool = [(set(f for f in features(h) if f[0] in ("off", "offpair")), h) for h in windows]
     rng.shuffle(wpool)
     wchosen, wcovered = [], set()
-    want_w = 10 if tier == "quick" else 70
+    want_w = 10 if tier == "quick" else 40
     while wpool and len(wchosen) < want_w:
         wpool.sort(key=lambda fh: -len(fh[0] - wcovered))
         f, h = wpool.pop(0)
@@ -1941,6 +1941,8 @@ def check_c17(tier, replay):
         raise ToolError("server answers differ from Upload.tla on schedules of the faithful model: %s"
                         % json.dumps(s_up["mismatches"][:3])[:1500])
     f_inputs = []
+    if tier != "quick":
+        chunks = 10
     per = (len(beh) + chunks - 1) // chunks
     for i in range(chunks):
         part = beh[i * per:(i + 1) * per]
@@ -1953,7 +1955,7 @@ def check_c17(tier, replay):
     s_f = vlib.run_harness_parallel(
         lambda p: [vlib.harness_bin("replay"), "files", p, os.path.join(scratch, os.path.basename(p)[:5]),
                    os.path.basename(p).split("_")[2].split(".")[0]],
-        f_inputs, jobs=6, timeout_s=3400)
+        f_inputs, jobs=chunks, timeout_s=3400)
     # ---- (3) trace validation (FilesTrace.tla): recorded runs against the specification
     known = vlib.known_keys(prop)
     known_hits = []
